@@ -31,6 +31,9 @@ type Sym struct {
 	escapes map[*ssa.Alloc]bool
 	pstores map[string][]*ssa.Store // stores through parameter/global-rooted field paths, by path key
 	dom    func(a, b *ssa.BasicBlock) bool
+	// PhiConst, if set, folds a phi that can only take one constant value once a parameter is bound to a constant
+	// (`attr := ""; switch name { case "a": attr = "href" … }` specialised to a name); it returns the constant's symbol.
+	PhiConst func(*ssa.Phi) (string, bool)
 }
 
 func NewSym(fn *ssa.Function, isPure func(*ssa.Function) bool) *Sym {
@@ -327,6 +330,11 @@ func (s *Sym) of(v ssa.Value) string {
 		return s.call(x)
 	case *ssa.Phi:
 		s.dep(v, v)
+		if s.PhiConst != nil {
+			if k, ok := s.PhiConst(x); ok {
+				return k
+			}
+		}
 		return "phi(" + x.Comment + ")@" + uid(v)
 	case *ssa.MakeInterface:
 		s.dep(v, x.X)
